@@ -510,8 +510,15 @@ class S:
         if isinstance(b, S):
             return b.__pow__(self)
         b = float(b)
-        if b <= 0:
-            raise Unsupported("non-positive base of rpow")
+        if b == 0:
+            # 0 ** x: 0 for x > 0, 1 at x == 0 (the comparisons are concolic and recorded in the path condition)
+            if self > 0:
+                return S(const(0), self.nd)
+            if self == 0:
+                return S(const(1), self.nd)
+            raise Unsupported("0 ** negative")
+        if b < 0:
+            raise Unsupported("negative base of rpow")
         # n ** x computed by NumPy as exp(x * ln n); ln n is the float the kernels also use
         return S(fn("exp", mul(self.n, const(float(np.log(b))))), self.nd)
 
